@@ -8,15 +8,17 @@ import ddjson
 NAMES = ["B", "a", "A1", "x10", "x9", "x2", "Z", "b", "ab", "aB", "_k", "v0", "V0", "x", "y1", "Y"]
 
 
-def build(here):
+def build(here, release=False):
     env = dict(os.environ)
     env["CARGO_NET_OFFLINE"] = "true"
     tgt = os.path.join(here, "target", "repo")
-    r = subprocess.run(["cargo", "build", "--offline", "--features", "cli", "--bins", "--target-dir", tgt],
-                       cwd="/repo", env=env, stdout=subprocess.PIPE, stderr=subprocess.STDOUT, text=True)
+    cmd = ["cargo", "build", "--offline", "--features", "cli", "--bins", "--target-dir", tgt]
+    if release:
+        cmd.append("--release")
+    r = subprocess.run(cmd, cwd="/repo", env=env, stdout=subprocess.PIPE, stderr=subprocess.STDOUT, text=True)
     if r.returncode != 0:
         return None, r.stdout[-3000:]
-    return os.path.join(tgt, "debug"), ""
+    return os.path.join(tgt, "release" if release else "debug"), ""
 
 
 # ------------------------------------------------------------------ formulas
@@ -283,12 +285,23 @@ def run(here, tier, seed, only=None):
         jobs = [("wmc", i) for i in range(700 * scale)] + [("formula_to_bdd", i) for i in range(350 * scale)] + [("cnf_to_bdd", i) for i in range(350 * scale)]
     viols, counters, samples, distinct = [], {}, [], set()
 
+    # thorough tier: every other case runs on the binaries as shipped (release profile:
+    # no overflow checks, no debug assertions, lto, panic=abort)
+    bindirs = [bindir]
+    if tier == "thorough" and only is None:
+        rel, err = build(here, release=True)
+        if rel is None:
+            return [], {"counters": {}, "samples": [], "inconclusive": ["building the release cli binaries failed: " + err[-500:]]}
+        bindirs.append(rel)
+
     def one(job):
         kind, i = job
-        return kind, KINDS[kind](bindir, work, seed, i)
+        bd = bindirs[i % len(bindirs)]
+        return kind, KINDS[kind](bd, work, seed, i) + (bd,)
 
     with ThreadPoolExecutor(max_workers=os.cpu_count() or 4) as ex:
-        for kind, (vs, nontrivial, info) in ex.map(one, jobs):
+        for kind, (vs, nontrivial, info, bd) in ex.map(one, jobs):
+            counters["cli_runs_" + os.path.basename(bd)] = counters.get("cli_runs_" + os.path.basename(bd), 0) + 1
             counters["evaluations"] = counters.get("evaluations", 0) + 1
             counters["cli_" + kind] = counters.get("cli_" + kind, 0) + 1
             if nontrivial:
